@@ -110,8 +110,10 @@ TEXTS = {
                   'integer dtype of the configured width, an inserted QUANTIZE/DEQUANTIZE converts between the dtypes of '
                   'its neighbours, and only the transformed tensor\'s buffer can change. Tied by correspondences P, I, T/E; '
                   'a per-operand dtype oracle derived from the recipe resolution runs on every returned model.'),
-        'note': ('Composition through the instruction generator (horizontal grouping, DQ/Q elimination, requantize) is '
-                 'validated by correspondence + oracle, not proved. Axioms: none.'),
+        'note': ('The instruction generator is covered by two theorems over ALL plan entries (no consumer position is lost; '
+                 'no instruction is invented; the three vertical rewrites are the only deviations and only at position 0 '
+                 'against an ADD_DEQUANTIZE producer). The end-to-end composition plan -> instructions -> performer down to '
+                 'the dtype each ORIGINAL OP finally reads is validated by correspondence + oracle, not proved. Axioms: none.'),
     },
     'C04': {
         'level': ('Theorems on the plan model with parameters as provenance terms (all models, configs, stores): every '
